@@ -1,17 +1,20 @@
 """C03 — output tree schema and returned descriptor match the query's final shape."""
 from __future__ import annotations
 
+import json
+
 import cgroup
 import pipeline as P
 import qgen
-import qtypes
+import qtypes  # cross-check only: the oracle is the Lean typing model (Linq/Typing.lean through C03/TypingDriver.lean)
 from cprop import CompilerProp
 
 ID = "C03"
-LEAN_MODULES = ["FaxVerif.C03.Theorems"]
-LEAN_SOURCES = ["FaxVerif/C03", "FaxVerif/Gen", "FaxVerif/Cpp"]
+LEAN_MODULES = ["FaxVerif.C03.Theorems", "FaxVerif.C03.TheoremsTyping"]
+LEAN_SOURCES = ["FaxVerif/C03", "FaxVerif/Gen", "FaxVerif/Cpp", "FaxVerif/Linq"]
 DRIVER = cgroup.DRIVER
-SETUP_MODULES = cgroup.DRIVER_IMPORTS  # what the driver imports
+TYPING_DRIVER = "FaxVerif/C03/TypingDriver.lean"
+SETUP_MODULES = cgroup.DRIVER_IMPORTS + ["FaxVerif.Linq.Typing"]  # what the two drivers import
 THEOREMS = [
     "FaxVerif.C03.schema_names",
     "FaxVerif.C03.schema_own_storage",
@@ -19,49 +22,101 @@ THEOREMS = [
     "FaxVerif.C03.tree_name",
     "FaxVerif.C03.elem_col_types",
     "FaxVerif.C03.branch_vars",
+    # the typing model of the whole query language (C03/TheoremsTyping.lean)
+    "FaxVerif.C03.type_soundness",
+    "FaxVerif.C03.columns_sound",
+    "FaxVerif.C03.columns_sound_labeled",
+    "FaxVerif.C03.int_stays_int",
+    "FaxVerif.C03.sum_has_element_type",
+    "FaxVerif.C03.division_is_floating",
+    "FaxVerif.C03.conditional_is_floating",
+    "FaxVerif.C03.comparison_is_bool",
+    "FaxVerif.C03.final_names_order",
+    "FaxVerif.C03.final_names_dict",
+    "FaxVerif.C03.final_names_tuple",
+    "FaxVerif.C03.final_names_distinct_partial",
+    "FaxVerif.C03.final_names_distinct_dict",
+    "FaxVerif.C03.width",
+    "FaxVerif.C03.label_mismatch_refused",
+    "FaxVerif.C03.column_shapes",
+    "FaxVerif.C03.neg_bool_counterexample",
+    "FaxVerif.C03.not_int_counterexample",
+    "FaxVerif.C03.ite_bool_counterexample",
 ]
 RULE = (
     "type-directed random queries (C01 generator) with every terminal form: bare value, tuple, list, dict, and explicit "
     "ResultTTree(source, names, tree, file) with random names / tree names and, in a separate refusal stream, a wrong number of names; "
-    "three backends. Checked on the implementation's output: decidable SchemaOk (names in order, own storage, declared once with the "
-    "expected C++ type computed independently from the query, body writes exactly the booked variables, fill names the booked tree) and "
-    "the returned descriptor. Non-trivial: >=2 operators and >=2 columns or a sequence column."
+    "plus a deterministic stream with one column per typing rule and operand-kind combination (conditional with integer arms, int/int "
+    "division, float+double both ways, Sum/Min/Max/First/Aggregate per element kind, vectors and vectors of vectors), element level and event level; "
+    "three backends. The expected column names and C++ types of every case come from the Lean typing model (finalColumns / "
+    "finalColumnsLabeled of Linq/Typing.lean, proved sound for the reference semantics); tools/qtypes.py is only cross-checked against it. "
+    "Checked on the implementation's output: decidable SchemaOk (names in order, own storage, declared once with the "
+    "expected C++ type, body writes exactly the booked variables, fill names the booked tree) and "
+    "the returned descriptor. type_soundness is also evaluated: on every generated case and event the value `denote` yields fits the type "
+    "`typeOf` gives. Non-trivial: >=2 operators and >=2 columns or a sequence column."
 )
 TRUSTED_BASE = [
-    "tools/qtypes.py: the expected column types (the property's typing rules) — independent of the translator",
+    "lean/FaxVerif/Linq/Typing.lean typeOf / finalColumns: the property's typing rules as an executable Lean model (sound for Linq.denote by "
+    "C03.type_soundness / C03.columns_sound), given the declared kinds of the synthetic data model read from the metadata the translator receives",
     "tools/cparse.py parse of booking lines and class declarations",
 ]
 ASSUMPTIONS = ["the runner delivers the file the job writes under the name ANALYSIS.root (C16 covers the runner)"]
 LEVEL_TEXT = (
     "Lean 4 theorems on the translator model for all fragment queries: booked names = the final expression's names in order, one "
     "distinct storage variable per column, width, tree name, element-level column types (int stays int, / is double, comparisons bool). "
-    "The decidable schema predicate SchemaOk (Lean) is evaluated on the implementation's own parsed output for every generated query "
-    "of the larger language and all terminal forms, with expected types computed independently; the returned descriptor and the "
-    "count-mismatch refusal are checked on the real pipeline."
+    "Lean 4 typing model of the WHOLE generator language (typeOf / finalColumns / finalColumnsLabeled) with type_soundness: for every query, "
+    "every event of the data model and every environment, a value the query yields fits the column type the rules assign (every element of a "
+    "sequence the element type, nested likewise); columns_sound: every row fits the booked columns cell by cell; int_stays_int, "
+    "division_is_floating, conditional_is_floating, comparison_is_bool, final_names_order / _dict / _tuple, final_names_distinct_partial, width, "
+    "label_mismatch_refused, column_shapes. That model is the oracle: the decidable schema predicate SchemaOk (Lean) is evaluated on the "
+    "implementation's own parsed output for every generated query and all terminal forms against the names and C++ types the model computes; "
+    "the returned descriptor and the count-mismatch refusal (decided by finalColumnsLabeled) are checked on the real pipeline."
 )
 LEVEL_NOTE = (
-    "Proved on the model (tied by C01's text tie): names, distinct storage, width, tree name, element-level scalar types. Not proved: "
-    "event-level column types and 'body writes exactly the booked variables' for all queries (evaluated per generated program). "
+    "Proved on the translator model (tied by C01's text tie): names, distinct storage, width, tree name, element-level scalar types. Proved on the "
+    "typing model for all queries: soundness of the expected types, names/order/width/labels of the final shape. Not proved: that the TRANSLATOR "
+    "assigns the model's type to every query (evaluated per generated program through SchemaOk) and 'body writes exactly the booked variables' for "
+    "all queries. Where the translator's own rule is not the type of Python's value the model follows Python and the difference is a proved "
+    "counterexample outside the generated stream: -b (bool operand) is booked bool, `not i` is booked int, a conditional with boolean arms is "
+    "booked double (neg_bool_/not_int_/ite_bool_counterexample); distinct names need distinct dict keys (final_names_distinct_partial). "
     "Known: unique_name = name ++ index is not injective (column x1 at counter 0 vs column x at counter 10)."
 )
-TECHNIQUE = "Lean 4 theorems on the translator model + decidable schema predicate (Lean) evaluated on the implementation's output"
+TECHNIQUE = "Lean 4 theorems on the translator model and on a typing model of the query language (type soundness) + decidable schema predicate (Lean) evaluated on the implementation's output against the typing model's columns"
 DESIGN_REF = "DESIGN.md §4 C03"
 
 PREFIX = {"atlas": "atlas_xaod", "cms_aod": "cms_aod", "cms_miniaod": "cms_miniaod"}
 
 
 class SCase(cgroup.Case):
-    explicit = None  # (names, tree) for an explicit ResultTTree
+    explicit = None  # (names, tree, mismatch intended by the generator) for an explicit ResultTTree
+    typing = None  # answers of the Lean typing model: {"default":…, "labeled":…|None, "sound":…}
+    expected = None  # (names, C++ types, tree) the Lean model demands; None when it demands a refusal or has no answer
+
+    def to_json(self):
+        d = super().to_json()
+        if self.explicit:
+            d["explicit"] = list(self.explicit)
+        return d
+
+
+def as_scase(c, j=None):
+    if not isinstance(c, SCase):
+        c.__class__ = SCase
+        c.explicit = None
+    if j and j.get("explicit"):
+        c.explicit = (list(j["explicit"][0]), j["explicit"][1], bool(j["explicit"][2]))
+    return c
 
 
 def gen(ctx, i):
     c = cgroup.gen_case(ctx.rng, backend=P.BACKENDS[i % 3], nevents=1)
-    c.__class__ = SCase
-    c.explicit = None
+    as_scase(c)
     kind = i % 20  # 0..5: explicit ResultTTree (30%); 0 and 1: with a wrong number of labels (one too many / one too few)
     if kind < 6:
-        names, types = qtypes.columns(c.query)
-        newnames = [ctx.rng.choice(["pt", "eta", "n", "jetPt", "x"]) + str(k) for k in range(len(names))]
+        # (the number of labels follows the generator's own count of columns; whether the label list fits is DECIDED by the
+        # Lean model — finalColumnsLabeled — in `evaluate`, and a difference between the two is reported)
+        width = len(c.names)
+        newnames = [ctx.rng.choice(["pt", "eta", "n", "jetPt", "x"]) + str(k) for k in range(width)]
         mismatch = kind < 2
         if mismatch:
             newnames = newnames + ["extra"] if kind == 0 else newnames[:-1]  # (a bare value with NO label at all included)
@@ -85,27 +140,120 @@ def translate_case(c):
     return c
 
 
+# ---------------------------------------------------------------- the Lean typing model as the oracle
+
+_SIG = {}
+
+
+def _ty(t: str, known) -> str:
+    """a C++ type of the metadata in the driver's notation"""
+    t = t.strip()
+    if t in ("int", "float", "double", "bool"):
+        return t
+    if t.startswith("std::vector<") and t.endswith(">"):
+        return "vec:" + _ty(t[len("std::vector<"):-1], known)
+    if t in known:
+        return "obj:" + t
+    raise ValueError(f"metadata type {t!r} has no counterpart in the typing model")
+
+
+def sig(backend):
+    """The declared kinds of the data model, read from the very metadata the translator is given (qgen.metadata):
+    collection accessor -> element class, class -> method -> declared return type."""
+    if backend not in _SIG:
+        mds = qgen.metadata(backend)
+        colls = [{"name": d["name"], "cls": d["element_type"]} for d in mds if d["metadata_type"] == qgen.MDTYPE[backend]]
+        known = {c["cls"] for c in colls}
+        classes = {k: [] for k in sorted(known)}
+        for d in mds:
+            if d["metadata_type"] != "add_method_type_info":
+                continue
+            t = d.get("return_type_collection") or d["return_type"]
+            classes.setdefault(d["type_string"], []).append({"name": d["method_name"], "type": _ty(t, known)})
+        _SIG[backend] = {"colls": colls, "classes": [{"cls": k, "methods": v} for k, v in classes.items()]}
+    return _SIG[backend]
+
+
+def attach_typing(ctx, cases):
+    """One driver call: for every case the model's columns (default naming; with the labels when the case is an explicit
+    ResultTTree) and type_soundness evaluated on the case's events. Sets c.typing and c.expected; cross-checks qtypes."""
+    todo = [c for c in cases if c.typing is None]
+    reqs, idx = [], []
+    for c in todo:
+        q = c.lean_query or c.query
+        S = sig(c.backend)
+        k0 = len(reqs)
+        reqs.append({"op": "columns", "sig": S, "query": q, "labels": None})
+        reqs.append({"op": "sound", "sig": S, "query": q, "events": c.events, "coll_types": qgen.coll_types(c.backend)})
+        if c.explicit:
+            reqs.append({"op": "columns", "sig": S, "query": q, "labels": list(c.explicit[0])})
+        idx.append((k0, len(reqs)))
+    ans = ctx.driver(TYPING_DRIVER, reqs, timeout=900)
+    for c, (a, b) in zip(todo, idx):
+        r = ans[a:b]
+        c.typing = {"default": r[0], "sound": r[1], "labeled": r[2] if c.explicit else None}
+        c.expected = None
+        if any("bad" in x for x in r):
+            continue  # (the driver's failure is already a broken obligation)
+        ident = {"backend": c.backend, "source": c.source(), "explicit": list(c.explicit) if c.explicit else None}
+        d = c.typing["default"]
+        # 1 the model types every generated query
+        if "error" in d:
+            ctx.disagreement("C03 typing model assigns no column type to a generated query", ident, d, {"generator_names": c.names})
+            continue
+        # 2 cross-check: tools/qtypes.py (the former oracle) and the generator's own column names
+        try:
+            qn, qt = qtypes.columns(c.query)
+            if (qn, qt) != (d["names"], d["types"]):
+                ctx.disagreement("C03 typing model vs tools/qtypes.py", ident, {"names": d["names"], "types": d["types"]}, {"names": qn, "types": qt})
+        except Exception as e:  # qtypes knows less than the model: not a defect of the model
+            ctx.count("cross-check:qtypes-has-no-answer")
+        if c.names and not c.explicit and list(c.names) != d["names"]:
+            ctx.disagreement("C03 typing model vs the generator's column names", ident, d["names"], list(c.names))
+        # 3 type_soundness evaluated: every value fits its type, every generated event is an event of the data model
+        for k, e in enumerate(c.typing["sound"].get("events", [])):
+            ctx.count("soundness:" + e["outcome"].split(" ")[0].split(":")[0])
+            if not e["event_ok"]:
+                ctx.disagreement("C03 generated event is not an event of the declared data model (eventOk)", {**ident, "event": k}, e, None)
+            if e["outcome"].startswith("ILL-TYPED"):
+                ctx.disagreement("C03 type_soundness evaluated: a value denote yields does not fit the type typeOf gives", {**ident, "event": k}, {"type": c.typing["sound"].get("type")}, e["outcome"][:400])
+        # 4 what the tree must look like
+        tree = PREFIX[c.backend] + "_tree"
+        if c.explicit:
+            lab = c.typing["labeled"]
+            refused = "error" in lab
+            if refused != bool(c.explicit[2]):
+                ctx.disagreement("C03 typing model vs the generator: does the label list fit the columns", ident, lab, {"generator_intends_mismatch": c.explicit[2], "width": len(d["names"])})
+            if not refused:
+                c.expected = (lab["names"], lab["types"], c.explicit[1])
+        else:
+            c.expected = (d["names"], d["types"], tree)
+
+
 def request(c):
     r = cgroup.request(c, with_query=False)
-    names, types = qtypes.columns(c.query)
-    tree = PREFIX[c.backend] + "_tree"
-    if c.explicit:
-        names, tree = c.explicit[0], c.explicit[1]
-    c.expected = (names, types, tree)
-    r["schema"] = {"names": names, "types": types, "fill": tree if c.backend == "atlas" else ""}
+    if c.expected is not None:
+        names, types, tree = c.expected
+        r["schema"] = {"names": names, "types": types, "fill": tree if c.backend == "atlas" else ""}
     return r
+
+
+def model_refuses(c) -> bool:
+    """explicit labels that the Lean model (finalColumnsLabeled) rejects while the query itself has columns"""
+    t = c.typing or {}
+    return bool(c.explicit) and t.get("labeled") is not None and "error" in t["labeled"] and "names" in (t.get("default") or {})
 
 
 def judge(c):
     r = c.result
-    if c.explicit and c.explicit[2]:
+    if model_refuses(c):
         if r["ok"]:
-            return {"what": "a column / label count mismatch is accepted", "observed": {"names": c.explicit[0], "branches": c.package["branches"]}}
+            return {"what": "a column / label count mismatch is accepted", "observed": {"names": c.explicit[0], "model": c.typing["labeled"], "branches": c.package["branches"]}}
         return None
     if not r["ok"]:
         return None
     a = c.answer
-    if a is None or "bad" in a:
+    if a is None or "bad" in a or c.expected is None:
         return None
     names, types, tree = c.expected
     if r["treename"] != tree or r["filename"] != "ANALYSIS.root":
@@ -121,27 +269,186 @@ def judge(c):
 class Prop(CompilerProp):
     def evaluate(self, ctx, cases):
         for c in cases:
+            as_scase(c)
+        attach_typing(ctx, cases)
+        for c in cases:
             if c.result is None:
-                if not hasattr(c, "explicit") or not isinstance(c, SCase):
-                    c.__class__ = SCase
-                    c.explicit = None
                 translate_case(c)
         acc = [c for c in cases if c.result["ok"]]
         ans = ctx.driver(DRIVER, [request(c) for c in acc], timeout=1500)
         for c, a in zip(acc, ans):
             c.answer = a
 
+    def replay(self, ctx, rep) -> int:
+        c = cgroup.Case.from_json(rep["case"])
+        as_scase(c, rep["case"])
+        self.evaluate(ctx, [c])
+        hit = self.judge(c)
+        print("query :", c.source(), "| explicit:", c.explicit)
+        print("model :", c.typing)
+        print("\n".join((c.result or {}).get("query", [])) if c.result and c.result.get("ok") else c.result)
+        print("answer:", {k: v for k, v in (c.answer or {}).items() if k in ("schema_ok", "bad")})
+        print("VIOLATION" if hit else "holds", hit or "")
+        return 1 if hit and hit.get("kind") != "broken" else 0
+
 
 def after(ctx, c):
     ctx.count("terminal:" + ("explicit-mismatch" if c.explicit and c.explicit[2] else "explicit" if c.explicit else c.query["f"]["k"] if c.query["f"]["k"] in ("tuple", "list", "dict") else "bare"))
+    for t in (c.expected or ([], [], ""))[1]:
+        ctx.count("column-type:" + t)
 
 
 def nontrivial(c):
-    if not c.result["ok"] or len(qgen.ops_used(c.query)) < 2:
+    if not c.result["ok"] or len(qgen.ops_used(c.query)) < 2 or c.expected is None:
         return False
-    names, types = qtypes.columns(c.query)
+    names, types, _ = c.expected
     return len(names) >= 2 or any(t.startswith("std::vector") for t in types)
 
 
+# ---------------------------------------------------------------- one case per typing rule (deterministic)
+
+
+def rule_exprs():
+    """(rule, expression over an object `j`) — every rule of Linq.typeOf with the operand kinds that tell the rule from its
+    neighbours (int/int division, a conditional with two integer arms, float+double in both orders, Sum of floats …)."""
+    V = lambda n: {"k": "var", "n": n}
+    M = lambda o, n: {"k": "meth", "o": o, "n": n}
+    J = lambda n: M(V("j"), n)
+    K = lambda n: M(V("k"), n)
+    I = lambda v: {"k": "int", "v": v}
+    Dbl = lambda v: {"k": "dbl", "v": v}
+    B = lambda op, a, b: {"k": "bin", "op": op, "a": a, "b": b}
+    C = lambda op, a, b: {"k": "cmp", "op": op, "a": a, "b": b}
+    IF = lambda c, a, b: {"k": "if", "c": c, "a": a, "b": b}
+    SEL = lambda s, x, f: {"k": "Select", "s": s, "x": x, "f": f}
+    WH = lambda s, x, f: {"k": "Where", "s": s, "x": x, "f": f}
+    T = lambda k, s: {"k": k, "s": s}
+    AGG = lambda s, seed, f: {"k": "Aggregate", "s": s, "seed": seed, "acc": "acc", "x": "k", "f": f}
+    kids = lambda f: SEL(J("kids"), "k", f)
+    return [
+        ("if:int,int", IF(J("b"), J("i"), I(5))),
+        ("if:float,float", IF(J("b"), J("f"), J("f"))),
+        ("if:double,int", IF(C(">", J("i"), I(1)), J("d"), I(1))),
+        ("+:float,double", B("+", J("f"), J("d"))),
+        ("+:double,float", B("+", J("d"), J("f"))),
+        ("*:float,double", B("*", J("f"), J("g"))),
+        ("-:double,float", B("-", J("g"), J("f"))),
+        ("+:float,int", B("+", J("f"), J("i"))),
+        ("+:int,float", B("+", J("i"), J("f"))),
+        ("*:int,double", B("*", J("i"), J("d"))),
+        ("*:double,int", B("*", J("d"), J("j"))),
+        ("+:float,float", B("+", J("f"), J("f"))),
+        ("-:int,int", B("-", J("i"), J("j"))),
+        ("*:int,int", B("*", J("i"), I(3))),
+        ("%:int,int", B("%", J("i"), I(3))),
+        ("/:int,int", B("/", J("i"), I(2))),
+        ("/:float,float", B("/", J("f"), J("f"))),
+        ("/:float,int", B("/", J("f"), I(2))),
+        ("**:int,int", B("**", J("i"), I(2))),
+        ("**:float,int", B("**", J("f"), I(2))),
+        ("neg:int", {"k": "neg", "a": J("i")}),
+        ("neg:float", {"k": "neg", "a": J("f")}),
+        ("neg:double", {"k": "neg", "a": B("*", J("d"), I(2))}),
+        ("cmp:int,float", C("<", J("i"), J("f"))),
+        ("cmp:int,int", C("==", J("i"), J("j"))),
+        ("and", {"k": "and", "a": J("b"), "b": C(">", J("d"), Dbl("0.5"))}),
+        ("or", {"k": "or", "a": C(">", J("i"), I(1)), "b": J("b")}),
+        ("not", {"k": "not", "a": J("b")}),
+        ("Count", T("Count", J("vs"))),
+        ("Count:where", T("Count", WH(J("kids"), "k", K("b")))),
+        ("Sum:double", T("Sum", J("vs"))),
+        ("Sum:int", T("Sum", kids(K("i")))),
+        ("Sum:float", T("Sum", kids(K("f")))),
+        ("Sum:int*int", T("Sum", kids(B("*", K("i"), K("j"))))),
+        ("Min:int", T("Min", kids(K("i")))),
+        ("Max:float", T("Max", kids(K("f")))),
+        ("Max:double", T("Max", J("vs"))),
+        ("First:float", T("First", kids(K("f")))),
+        ("First:int", T("First", kids(K("i")))),
+        ("First:double", T("First", J("vs"))),
+        ("Aggregate:int+float", AGG(J("kids"), I(0), B("+", V("acc"), K("f")))),
+        ("Aggregate:int+int", AGG(J("kids"), I(0), B("+", V("acc"), K("i")))),
+        ("Aggregate:double+int", AGG(J("kids"), Dbl("0.5"), B("+", V("acc"), K("i")))),
+        ("Aggregate:int+double", AGG(J("kids"), I(1), B("*", V("acc"), K("d")))),
+        ("index:double", {"k": "sub", "a": J("vs"), "i": 0}),
+        ("index:float", M({"k": "sub", "a": J("kids"), "i": 0}, "f")),
+        ("fn", {"k": "fn", "f": "sqrt", "args": [J("f")]}),
+        ("userfn", {"k": "fn", "f": "vpf", "args": [J("d"), J("i")]}),
+        ("seq:float", kids(K("f"))),
+        ("seq:float+int", kids(B("+", K("f"), K("i")))),
+        ("seq:int", kids(B("*", K("i"), I(2)))),
+        ("seq:bool", kids(C(">", K("d"), Dbl("1.5")))),
+        ("seq:double*float", SEL(J("vs"), "v", B("*", V("v"), J("f")))),
+        ("seq:if", kids(IF(K("b"), K("i"), K("j")))),
+        ("seq:where", SEL(WH(J("kids"), "k", C(">", K("i"), I(0))), "k", B("/", K("i"), I(2)))),
+        # (vectors of vectors are columns of event-level rows only: `kids` stands for the event's collection there)
+        ("seqseq:double", kids(K("vs"))),
+        ("seqseq:double+float", kids(SEL(K("vs"), "v", B("+", V("v"), K("f"))))),
+        ("seqseq:int", kids(SEL(K("kids"), "k2", M(V("k2"), "i")))),
+        ("seqseq:float/", kids(SEL(K("kids"), "k2", B("+", M(V("k2"), "f"), K("i"))))),
+    ]
+
+
+def rule_cases():
+    """The rule expressions as columns of real queries: three at a time as a dict / tuple of an element-level row
+    (`….SelectMany(e -> e.As("ba")).Select(j -> {…})`), and every scalar one again as a vector column at event level
+    (`ds.Select(e -> e.As("ba").Select(j -> expr))`). Deterministic: independent of the seed."""
+    import random
+
+    rng = random.Random("C03 typing rules")
+    exprs = rule_exprs()
+    coll = lambda e: {"k": "coll", "e": {"k": "var", "n": e}, "c": "As", "bank": "ba"}
+    rows = {"k": "SelectMany", "s": {"k": "ds"}, "x": "e", "f": coll("e")}
+    cases = []
+
+    def add(q, names, form, rules):
+        b = P.BACKENDS[len(cases) % 3]
+        c = cgroup.Case(b, q, names, form, [qgen.gen_event(rng, b, {"ba": "As"}, empty_bias=0.0)])
+        c.family = "typing-rules"
+        as_scase(c)
+        c.rules = rules
+        cases.append(c)
+
+    flat = [(r, e) for r, e in exprs if not r.startswith("seqseq")]
+    for n in range(0, len(flat), 3):
+        chunk = flat[n:n + 3]
+        if (n // 3) % 2 == 0:
+            ks = [f"r{n + i}" for i in range(len(chunk))]
+            body, names = {"k": "dict", "ks": ks, "es": [e for _, e in chunk]}, ks
+        else:
+            body, names = {"k": "tuple", "es": [e for _, e in chunk]}, [f"col{i}" for i in range(len(chunk))]
+        add({"k": "Select", "s": rows, "x": "j", "f": body}, names, "selectmany", [r for r, _ in chunk])
+    for r, e in flat:
+        if r.startswith(("seq", "index")):
+            continue  # (a vector per element would be a vector of vectors here — below; an index inside a projection is evaluated lazily: C04's subject)
+        add({"k": "Select", "s": {"k": "ds"}, "x": "e", "f": {"k": "Select", "s": coll("e"), "x": "j", "f": e}}, ["col1"], "select", [r])
+    # event-level rows with vector and vector-of-vector columns: `j.kids()` of the expressions becomes the event's collection
+    def at_event(q):
+        if isinstance(q, dict):
+            if q == {"k": "meth", "o": {"k": "var", "n": "j"}, "n": "kids"}:
+                return coll("e")
+            return {k: at_event(v) for k, v in q.items()}
+        if isinstance(q, list):
+            return [at_event(v) for v in q]
+        return q
+
+    deep = [(r, at_event(e)) for r, e in exprs if r.startswith("seq")]
+    deep = [(r, e) for r, e in deep if not qgen._uses_var(e, "j")]
+    for n in range(0, len(deep), 2):
+        chunk = deep[n:n + 2]
+        ks = [f"v{n + i}" for i in range(len(chunk))]
+        add({"k": "Select", "s": {"k": "ds"}, "x": "e", "f": {"k": "dict", "ks": ks, "es": [e for _, e in chunk]}}, ks, "select", [r for r, _ in chunk])
+    return cases
+
+
 _P = Prop(ID, gen, judge, 240, 2400, with_query=False, after=after, nontrivial=nontrivial)
-run, search, replay = _P.run, _P.search, _P.replay
+search, replay = _P.search, _P.replay
+
+
+def run(ctx):
+    cases = rule_cases()
+    for c in cases:
+        for r in c.rules:
+            ctx.count("rule:" + r.split(":")[0])
+    _P.stream(ctx, cases, "typing-rules")
+    _P.run(ctx)
